@@ -32,16 +32,18 @@ CONSTANTS
   Framings,    \* subset of {"cl","chunked","close"}  ("chunked" on an h2c backend = no content-length)
   Siblings,    \* what the second request may be: subset of SiblingKinds
   Faults,      \* subset of FaultPoints (as <<kind, at>>)
+  Timings,     \* subset of {"bf","ff"}
   Deviations,  \* names of known deviations of the code switched on (none open at present)
   Emit         \* TRUE = generator: print one REPLAY line per terminal state
 
-BT == 2        \* back_timeout   1 s  (a Tick is half a second)
-RT == 2        \* request_timeout 1 s
-FT == 4        \* front_timeout  2 s
+\* Two listener configurations (a Tick is half a second):
+\*   "bf" back first : back_timeout 1 s, front_timeout 2 s  -> the backend-token arms of Mux::timeout decide
+\*   "ff" front first: front_timeout 1 s, back_timeout 2 s  -> the frontend-token arms decide
+RT == 2        \* request_timeout 1 s in both
 MaxRetries == 3   \* CONN_RETRIES, lib/src/server.rs
 
 Reqs == 1..NReq
-Budget == NReq * (BT + FT) + 1
+Budget == NReq * 6 + 1
 
 SiblingKinds == {"b", "bdrip", "a", "noroute", "deny", "redirect", "nobackend", "iplimit", "wrongcert"}
 FaultKinds == {"none", "refuse", "close", "reset", "garbage", "stall", "connstall", "rststream"}
@@ -78,7 +80,7 @@ Prescribed(c) == CASE c = "noroute"        -> "404"
                    [] OTHER                -> "none"
 
 VARIABLES
-  sc,        \* [front, back, mode, nbk]                                 scenario, constant along a behaviour
+  sc,        \* [front, back, mode, nbk, timing]                               scenario, constant along a behaviour
   rq,        \* [Reqs -> [route, framing, fault, at, pace]]              scenario
   phase,     \* unsent receiving received link linked respStarted aborting done aborted
   answer,    \* "none" or the status of the one answer of the request
@@ -101,6 +103,8 @@ vars == <<sc, rq, phase, answer, cause, attempts, tried, link, bprog, cprog, fdo
           fconn, pool, bclock, fclock, wait, elapsed, actor>>
 
 Backends == {"B1", "B2", "B3", "B4"}
+BT == IF sc.timing = "ff" THEN 4 ELSE 2
+FT == IF sc.timing = "ff" THEN 2 ELSE 4
 
 Finished(r) == phase[r] \in {"done", "aborted"}
 Active(r) == phase[r] \in {"linked", "respStarted"}
@@ -142,7 +146,7 @@ OkScenario(s, q) ==
 
 \* built constructively (the record-set comprehension above would be astronomically large)
 ScenarioSet ==
-  LET Shapes == [front : Fronts, back : Backs, mode : {"seq", "pipe", "mux"}, nbk : {1, 2}]
+  LET Shapes == [front : Fronts, back : Backs, mode : {"seq", "pipe", "mux"}, nbk : {1, 2}, timing : Timings]
       Prim == {Primary(f, fr) : f \in Faults, fr \in Framings}
                \cup {[route |-> "a", framing |-> fr, fault |-> "none", at |-> "none", pace |-> "drip"] : fr \in Framings}
                \cup (IF NReq = 1 THEN {Sibling(k) : k \in Siblings \ {"a", "b", "bdrip"}}
@@ -351,13 +355,32 @@ BackTimeout(r) ==
             /\ UNCHANGED <<answer, fconn>>
   /\ UNCHANGED <<sc, rq, attempts, tried, bprog, cprog, fdone, stalled, dead, hit, pool, bclock, wait, elapsed>>
 
-\* frontend timeout: 408 for an HTTP/1 request that never completed (request_timeout), and the close that
-\* ends an HTTP/1 connection whose response was forcefully terminated (front_timeout).  The 503/504 arms of
-\* the frontend branch are shadowed by the shorter backend timeout in this configuration (FT > BT).
+\* frontend timeout (Mux::timeout, frontend token branch): 408 for an HTTP/1 request that never completed
+\* (request_timeout); with timing "ff" the 504 / forced-termination arms for the streams waiting on their
+\* backends; the close that ends an HTTP/1 connection whose response was forcefully terminated.
+\* (The 503 arm for a stream still in Link state is not reachable here: linking is immediate.)
 FrontTimeout ==
   /\ fconn # "closed"
   /\ \/ /\ \E r \in Reqs : phase[r] = "receiving" /\ AtHead(r) /\ fclock >= RT /\ sc.front = "h1"
         /\ LET r == CHOOSE q \in Reqs : phase[q] = "receiving" /\ AtHead(q) IN Default(r, "408", "clientTimeout")
+     \/ \* front_timeout with requests waiting for / receiving from their backends: every stream is handled in the
+        \* same pass - 504 where nothing was forwarded, forced termination where a response is under way
+        /\ fclock >= FT /\ \E r \in Reqs : Active(r)
+        /\ \A r \in Reqs : Active(r) => (dead[r] = "no" /\ ~(bprog[r] >= 2 /\ cprog[r] < bprog[r]))
+        /\ LET T == {r \in Reqs : Active(r)}
+               A == {r \in T : cprog[r] = 0}       \* answered 504
+               \* (on this path nothing is written for a terminated stream, on HTTP/2 either: the client learns
+               \* about it when the next frontend timeout closes the connection)
+               ph == [r \in Reqs |-> IF r \in A THEN "done" ELSE IF r \in T THEN "aborting" ELSE phase[r]]
+               cs == [r \in Reqs |-> IF r \in A THEN "backendTimeout"
+                                      ELSE IF r \in T /\ answer[r] = "none" THEN "aborted" ELSE cause[r]]
+           IN /\ answer' = [r \in Reqs |-> IF r \in A THEN "504" ELSE answer[r]]
+              /\ phase' = IF sc.front = "h1" /\ A # {} THEN CutAll(ph) ELSE ph
+              /\ cause' = IF sc.front = "h1" /\ A # {} THEN CutCause(ph, cs) ELSE cs
+              /\ link' = [r \in Reqs |-> IF r \in T THEN "none" ELSE link[r]]
+              /\ fconn' = IF A = {} THEN fconn ELSE IF sc.front = "h1" THEN "closed" ELSE IF fconn = "closed" THEN "closed" ELSE "draining"
+        /\ fclock' = 0
+        /\ actor' = 0
      \/ /\ \E r \in Reqs : phase[r] = "aborting" /\ fclock >= FT
         /\ phase' = CutAll(phase)
         /\ cause' = CutCause([q \in Reqs |-> IF phase[q] = "aborting" THEN "done" ELSE phase[q]], cause)
@@ -524,7 +547,7 @@ Outcome(r) == <<answer[r], IF phase[r] = "done" THEN "complete" ELSE "abort">>
 Terminal == AllFinished /\ ~ENABLED Next
 EmitState ==
   (Emit /\ Terminal) =>
-     PrintT(<<"REPLAY", ToJson([front |-> sc.front, back |-> sc.back, mode |-> sc.mode, nbk |-> sc.nbk,
+     PrintT(<<"REPLAY", ToJson([front |-> sc.front, back |-> sc.back, mode |-> sc.mode, nbk |-> sc.nbk, timing |-> sc.timing,
                                 reqs |-> [r \in Reqs |-> rq[r]],
                                 out |-> [r \in Reqs |-> Outcome(r)],
                                 ticks |-> [r \in Reqs |-> elapsed[r]]])>>)
